@@ -18,8 +18,8 @@ LEAN_MODULES = ["Properties.C19"]
 NEEDS_DTYPES = False
 LEVEL = "proof"
 RULE = (
-    "a generated family of 10 torch modules (1-3 tensor parameters, optional parameter, tuple return, multi-axis and expression annotations, "
-    "free scope provider) x {eager, torch.jit.trace, torch.jit.script, torch.compile(backend='eager')} (thorough adds aot_eager) x "
+    "a generated family of 14 torch modules (1-3 tensor parameters, optional parameter, tuple return, multi-axis and expression annotations using every operator and function of the grammar, named expressions, "
+    "free scope provider) x {eager, torch.jit.trace with positional and with keyword example inputs, torch.jit.script, torch.compile(backend='eager')} (thorough adds aot_eager) x "
     "{conforming input: outputs torch.equal to the undecorated twin's; non-conforming input: the dltype error class under eager, script "
     "and compile}. non-trivial = every (module, mode, input kind) triple"
 )
@@ -79,6 +79,26 @@ class M10(torch.nn.Module):
     def forward(self, x: Annotated[torch.Tensor, dltype.FloatTensor["*batch c"]], y: Annotated[torch.Tensor, dltype.FloatTensor["*batch c+1"]]) -> Annotated[torch.Tensor, dltype.FloatTensor["*batch c"]]:
         return x + y[..., :-1]
 
+class M11(torch.nn.Module):
+    DEC
+    def forward(self, x: Annotated[torch.Tensor, dltype.FloatTensor["b n"]]) -> Annotated[torch.Tensor, dltype.FloatTensor["b isqrt(n)"]]:
+        return x[:, :2]
+
+class M12(torch.nn.Module):
+    DEC
+    def forward(self, x: Annotated[torch.Tensor, dltype.FloatTensor["b c"]], y: Annotated[torch.Tensor, dltype.FloatTensor["b min(b,c)"]]) -> Annotated[torch.Tensor, dltype.FloatTensor["b max(b,c)/2"]]:
+        return x[:, :2] + y
+
+class M13(torch.nn.Module):
+    DEC
+    def forward(self, x: Annotated[torch.Tensor, dltype.FloatTensor["b c"]]) -> Annotated[torch.Tensor, dltype.FloatTensor["b c^2-c"]]:
+        return torch.cat([x, x], dim=1)
+
+class M14(torch.nn.Module):
+    DEC
+    def forward(self, x: Annotated[torch.Tensor, dltype.FloatTensor["b c"]], y: Annotated[torch.Tensor, dltype.FloatTensor["b d=c+1"]]) -> Annotated[torch.Tensor, dltype.FloatTensor["b d"]]:
+        return y * 2
+
 class M8(torch.nn.Module):
     DEC
     def forward(self, x: Annotated[torch.Tensor, dltype.FloatTensor["b c"]], m: Optional[Annotated[torch.Tensor, dltype.FloatTensor["b c"]]] = None) -> Annotated[torch.Tensor, dltype.FloatTensor["b c"]]:
@@ -109,6 +129,10 @@ def family():
         "M8": ((r(2, 3),), (r(2, 3, 1),)),
         "M9": ((r(2, 3), r(2, 6)), (r(2, 3), r(2, 5))),
         "M10": ((r(2, 4, 3), r(2, 4, 4)), (r(2, 4, 3), r(2, 5, 4))),
+        "M11": ((r(2, 4),), (r(2, 4, 1),)),
+        "M12": ((r(2, 4), r(2, 2)), (r(2, 4), r(2, 3))),
+        "M13": ((r(2, 3),), (r(2, 3, 1),)),
+        "M14": ((r(2, 3), r(2, 4)), (r(2, 3), r(2, 5))),
     }
     return dec_ns, und_ns, inputs
 
@@ -127,10 +151,13 @@ def custom(run, tier):
 
     dltype = impl.dltype
     dec_ns, und_ns, inputs = family()
-    modes = ["eager", "trace", "script", "compile-eager"] + (["compile-aot_eager"] if tier == "thorough" else [])
+    import inspect
+
+    modes = ["eager", "trace", "trace-kwargs", "script", "compile-eager"] + (["compile-aot_eager"] if tier == "thorough" else [])
     for name, (good, bad) in inputs.items():
         D, U = dec_ns[name], und_ns[name]
         ref = U()(*good)
+        pnames = [p for p in inspect.signature(U.forward).parameters if p != "self"][: len(good)]
         for mode in modes:
             line = f"TORCH\t{name}\t{mode}"
 
@@ -140,6 +167,9 @@ def custom(run, tier):
                     return m
                 if mode == "trace":
                     return torch.jit.trace(m, good)
+                if mode == "trace-kwargs":
+                    # tracing with keyword example inputs matches them against forward's visible signature
+                    return torch.jit.trace(m, example_kwarg_inputs=dict(zip(pnames, good)))
                 if mode == "script":
                     return torch.jit.script(m)
                 torch._dynamo.reset()
@@ -149,7 +179,7 @@ def custom(run, tier):
             run.n_distinct_nontrivial += 1
             try:
                 md = make(D)
-                out = md(*good)
+                out = md(**dict(zip(pnames, good))) if mode == "trace-kwargs" else md(*good)
                 ok = same(out, ref)
                 obs = "equal" if ok else "different-output"
             except Exception as e:  # noqa: BLE001
@@ -160,14 +190,14 @@ def custom(run, tier):
                 # is it the decoration? the undecorated twin must capture fine
                 try:
                     mu = make(U)
-                    mu(*good)
+                    mu(**dict(zip(pnames, good))) if mode == "trace-kwargs" else mu(*good)
                     run.findings.append(Finding("failing-input", f"{name} under {mode}: decorated module {obs}, the undecorated twin captures and runs", Case(line + "\tconforming", "torch"), obs))
                 except Exception:  # noqa: BLE001
                     run.notes.append(f"{name}/{mode}: neither twin captures ({obs[:60]}) - not attributable to the decoration")
                 continue
             if len(run.samples) < 8:
                 run.samples.append({"case": line, "conforming": obs})
-            if bad is None or mode == "trace" or md is None:
+            if bad is None or mode.startswith("trace") or md is None:
                 continue
             run.n_cases += 1
             run.n_distinct_nontrivial += 1
